@@ -128,6 +128,37 @@ fn finish_history(a: &DistinguishedName, key: &LiveKey, case: &str, out: &mut Ou
 		Outcome::Err(e) => out.event("DnEncode", case, json!({"h": "a"}), "Err", &e, json!({})),
 		Outcome::Panic(m) => out.event("DnEncode", case, json!({"h": "a"}), "Panic", &m, json!({})),
 	}
+	// the same name issued under an issuer whose name holds the same attributes in the opposite order: each of the two
+	// encoded names lists its own enumeration
+	if entries.len() >= 2 {
+		let mut r = DistinguishedName::new();
+		for e in entries.iter().rev() {
+			push_logged(&mut r, "r", e, case, out);
+		}
+		let mut ip = CertificateParams::default();
+		ip.distinguished_name = r;
+		ip.serial_number = Some(SerialNumber::from_slice(&[2]));
+		ip.is_ca = IsCa::Ca(BasicConstraints::Unconstrained);
+		let mut p = CertificateParams::default();
+		p.distinguished_name = a.clone();
+		p.serial_number = Some(SerialNumber::from_slice(&[3]));
+		if !cfg!(feature = "crypto") {
+			ip.key_identifier_method = KeyIdMethod::PreSpecified(vec![1]);
+			p.key_identifier_method = KeyIdMethod::PreSpecified(vec![1]);
+		}
+		let args = json!({"h": "a", "issuer": "r"});
+		match guarded(|| {
+			let issuer = ip.self_signed(&key.kp)?;
+			p.signed_by(&key.kp, &issuer, &key.kp)
+		}) {
+			Outcome::Ok(cert) => match crate::x509::Walker::new().certificate(cert.der()) {
+				Ok(v) => out.event("DnEncode", case, args, "Ok", "", json!({"subject": v["subject"], "issuer": v["issuer"]})),
+				Err(e) => out.event("DnEncode", case, args, "Err", &format!("undecodable: {}", e), json!({})),
+			},
+			Outcome::Err(e) => out.event("DnEncode", case, args, "Err", &e, json!({})),
+			Outcome::Panic(m) => out.event("DnEncode", case, args, "Panic", &m, json!({})),
+		}
+	}
 }
 
 pub fn run_history(ops: &[Value], case: &str, key: &LiveKey, out: &mut Out) {
@@ -162,7 +193,7 @@ pub fn run_random(out_path: &str, walks: usize, len: usize) {
 	let mut out = Out::create(out_path);
 	let mut rng = Rng::new(seed ^ 0xd15);
 	let key = live_key("k-dn", "ed25519", &pick_via("ed25519", &mut rng), &mut rng).expect("key");
-	let types = ["2.5.4.3", "2.5.4.6", "2.5.4.7", "2.5.4.8", "2.5.4.10", "2.5.4.11", "custom:1.2.3.4", "custom:2.5.4.3", "custom:1.2.840.113549.1.9.1", "custom:2.999.7"];
+	let types = ["2.5.4.3", "2.5.4.6", "2.5.4.7", "2.5.4.8", "2.5.4.10", "2.5.4.11", "custom:1.2.3.4", "custom:2.5.4.3", "custom:1.2.840.113549.1.9.1", "custom:2.999.7", "custom:1.2.3", "custom:1.2.3.4.5"];
 	let kinds = ["utf8", "printable", "ia5", "teletex", "bmp", "universal"];
 	for w in 0..walks {
 		let case = format!("dnwalk/{}", w);
